@@ -388,6 +388,9 @@ WHY_RULES = [
     (r'(Cidr>::(contains_subnet|from_netmask)|AddressExt>::prefix_len|wire::ip::Address>::v6|ethernet::Address>::is_local|'
      r'HardwareAddress>::is_broadcast|RawHardwareAddress>::is_empty|icmpv6::Message>::is_error|ListenEndpoint>::is_specified)$', None,
      'unclaimed: address/CIDR helper of the public API that the stack itself never calls'),
+    (r'^<wire::ip::Packet<T>>::|^<wire::ip::Repr>::parse$', None,
+     'expected: `wire::ip::Packet` is not exported (`pub(crate) mod ip`, no `IpPacket` re-export), so neither it nor '
+     '`IpRepr::parse` (which takes it) can be called from outside the crate, and the crate itself only does so in its tests'),
     (r'socket::Socket as socket::AnySocket>', None, 'unclaimed: AnySocket identity casts for the `Socket` enum itself'),
 ]
 
